@@ -73,6 +73,9 @@ pub enum UnmarshalError {
     /// A boolean did contain something other than 0 or 1
     #[error("A boolean did contain something other than 0 or 1")]
     InvalidBoolean,
+    /// A string or signature was not terminated by a nul byte
+    #[error("A string or signature was not terminated by a nul byte")]
+    MissingNulTerminator,
     /// No more values can be read from this message
     #[error("No more values can be read from this message")]
     EndOfMessage,
